@@ -90,11 +90,16 @@ class World:
     def dtd_marker(self, res):
         return 'CANARY%sD%dZ' % (self.token, res)
 
+    def attlist_marker(self, res):
+        return 'CANARY%sA%dZ' % (self.token, res)
+
     def content(self, res):
         if res in TEXT_RES:
             return self.text_of(res)
         if res in DTD_RES:
-            return '<!ENTITY e%d "%s">' % (DTD_ENT_BASE + res - 50, self.dtd_marker(res))
+            # an entity and a default for the declared attribute `tag` of <t:item> (prefix as rendered)
+            return '<!ENTITY e%d "%s">\n<!ATTLIST t:item tag CDATA "%s">' % (
+                DTD_ENT_BASE + res - 50, self.dtd_marker(res), self.attlist_marker(res))
         return None
 
     def env_json(self):
@@ -105,7 +110,8 @@ class World:
         return {'present': pres, 'text': text, 'decls': decls}
 
     def secrets(self):
-        return [self.text_of(r) for r in TEXT_RES] + [self.dtd_marker(r) for r in DTD_RES]
+        return [self.text_of(r) for r in TEXT_RES] + [self.dtd_marker(r) for r in DTD_RES] + \
+            [self.attlist_marker(r) for r in DTD_RES]
 
 
 def cps(s):
@@ -298,18 +304,21 @@ class Worker:
                     names.add(nm)
                 i += 16 + ln
 
-    def proto(self, name, kw):
+    def proto(self, name, kw, validator=None):
         if kw == 'defaults':
-            return self.protos[name]()          # "with default settings": whatever the repository's defaults are
+            # "with default settings": whatever the repository's defaults are
+            return self.protos[name](validator=validator) if validator else self.protos[name]()
         args = dict(kw)
+        if validator:
+            args['validator'] = validator
         args.pop('remove_comments', None)
         args['resolve_entities'] = {'off': False, 'internal': 'internal', 'all': True}[args['resolve_entities']]
         return self.protos[name](**args)
 
-    def app(self, name, kw):
-        key = (name, json.dumps(kw, sort_keys=True))
+    def app(self, name, kw, validator=None):
+        key = (name, json.dumps(kw, sort_keys=True), validator)
         if key not in self.apps:
-            a = self.Application([self.Svc], TNS, in_protocol=self.proto(name, kw), out_protocol=self.protos[name]())
+            a = self.Application([self.Svc], TNS, in_protocol=self.proto(name, kw, validator), out_protocol=self.protos[name]())
             a.in_protocol.event_manager.add_listener('before_deserialize', self._on_deser)
             self.apps[key] = a
         return self.apps[key]
@@ -353,7 +362,7 @@ class Worker:
         from spyne import MethodContext
         from spyne.server import ServerBase
         from spyne.server.wsgi import WsgiApplication
-        a = self.app(q['proto'], q['kw'])
+        a = self.app(q['proto'], q['kw'], q.get('validator'))
         if q.get('history') == 'unsafe-sibling':
             # a differently configured instance of the same class is created after the one under test
             a = self.Application([self.Svc], TNS, in_protocol=self.protos[q['proto']](), out_protocol=self.protos[q['proto']]())
@@ -593,6 +602,72 @@ def measure_plumbing(cls):
             plumb[k] = 'other'
     extra = sorted(set(base) - set(KW_KEYS) - {'encoding'})
     return plumb, basej, defs, extra
+
+
+_SVC = None
+
+
+def at_request_kw(cls, validator, args=None, run_request=False):
+    """the keyword dict of a protocol instance AT REQUEST TIME: after the validator was chosen, the Application,
+    a ServerBase and a WsgiApplication were built around it (set_validator / set_app have run)"""
+    global _SVC
+    from spyne.server import ServerBase
+    from spyne.server.wsgi import WsgiApplication
+    if _SVC is None:
+        _SVC = build_stack()
+    Application, Svc, _ = _SVC
+    real = dict(args or {})
+    if 'resolve_entities' in real:
+        real['resolve_entities'] = {'off': False, 'internal': 'internal', 'all': True}[real['resolve_entities']]
+    if validator:
+        real['validator'] = validator
+    p = cls(**real)
+    app = Application([Svc], TNS, in_protocol=p, out_protocol=cls())
+    srv = ServerBase(app)
+    WsgiApplication(app)
+    if run_request:
+        from spyne import MethodContext
+        ctx = MethodContext(srv, MethodContext.SERVER)
+        ctx.in_string = [b'<t:echo xmlns:t="%s"><t:s>x</t:s></t:echo>' % TNS.encode()]
+        try:
+            for c in srv.generate_contexts(ctx):
+                if c.in_error is None:
+                    srv.get_in_object(c)
+        except Exception:
+            pass
+    return app.in_protocol.parser_kwargs
+
+
+VALIDATORS = [None, 'soft', 'lxml']
+VNAME = {None: 'none', 'soft': 'soft', 'lxml': 'lxml'}
+
+
+def measure_post(cls):
+    """per validator: what the configuration path does to every key, and extra keys found at request time"""
+    base = {a: DEFAULT_KW[a] for a in BOOL_ARGS}
+    base['resolve_entities'] = 'off'
+    tests = [dict(base)] + [dict(base, **{a: not base[a]}) for a in BOOL_ARGS] + \
+        [dict(base, resolve_entities=r) for r in ('internal', 'all')]
+    post, live, extra = {}, {}, set()
+    for v in VALIDATORS:
+        obs = []
+        for i, t in enumerate(tests):
+            d = at_request_kw(cls, v, t, run_request=(i == 0))
+            extra |= set(d) - set(KW_KEYS) - {'encoding'}
+            obs.append((kw_json(cls(**dict({k: x for k, x in t.items() if k != 'resolve_entities'},
+                                          resolve_entities={'off': False, 'internal': 'internal', 'all': True}[t['resolve_entities']])).parser_kwargs),
+                        kw_json(d)))
+        w = {}
+        for k in KW_KEYS:
+            if all(b[k] == a[k] for a, b in obs):
+                w[k] = 'keep'
+            elif len({b[k] for a, b in obs}) == 1 and obs[0][1][k] is not None:
+                w[k] = ('set', obs[0][1][k])
+            else:
+                w[k] = 'other'
+        post[VNAME[v]] = w
+        live[VNAME[v]] = kw_json(at_request_kw(cls, v, None, run_request=True))
+    return post, live, sorted(extra)
 
 
 def probe_doc(cls, doc, **kw):
@@ -940,6 +1015,38 @@ class SiteScan:
         except Exception:
             return None
 
+    def kw_writes(self):
+        """statements that write to a `parser_kwargs` outside an __init__"""
+        out = []
+
+        def is_pk(e):
+            return isinstance(e, ast.Attribute) and e.attr == 'parser_kwargs'
+
+        def target_hits(t):
+            if is_pk(t) or (isinstance(t, ast.Subscript) and is_pk(t.value)):
+                return True
+            if isinstance(t, (ast.Tuple, ast.List)):
+                return any(target_hits(e) for e in t.elts)
+            return False
+        for rel, m in sorted(self.mods.items()):
+            for qual, fn in sorted(m.funcs.items()):
+                if qual.endswith('__init__'):
+                    continue
+                for node in ast.walk(fn):
+                    hit = False
+                    if isinstance(node, ast.Assign):
+                        hit = any(target_hits(t) for t in node.targets)
+                    elif isinstance(node, (ast.AugAssign, ast.AnnAssign)):
+                        hit = target_hits(node.target)
+                    elif isinstance(node, ast.Delete):
+                        hit = any(target_hits(t) for t in node.targets)
+                    elif isinstance(node, ast.Call) and isinstance(node.func, ast.Attribute) and is_pk(node.func.value) \
+                            and node.func.attr in ('update', 'pop', 'popitem', 'setdefault', 'clear', '__setitem__', '__delitem__'):
+                        hit = True
+                    if hit:
+                        out.append({'file': rel, 'line': node.lineno, 'func': qual})
+        return out
+
     def sites(self):
         classes = proto_classes()
         roots = {}
@@ -1051,6 +1158,11 @@ def measure_facts(ctx):
     f['parserPerRequest'] = per_req
     scan = SiteScan(core.REPO)
     f['sites'], f['xincludeCalls'], f['roots'] = scan.sites()
+    f['kwWrites'] = scan.kw_writes()
+    f['post'], f['liveAt'] = {}, {}
+    for name, cls in classes.items():
+        f['post'][name], f['liveAt'][name], ex = measure_post(cls)
+        f['extra'][name] = sorted(set(f['extra'][name]) | set(ex))
     return f
 
 
@@ -1100,6 +1212,19 @@ def facts_lean(f):
             else:
                 parts.append('%s := %s' % (lean_camel(k), lean_bsrc(pl[k])))
         return '{ ' + ', '.join(parts) + ' }'
+    def lean_write(k, w):
+        if k == 'resolve_entities':
+            return '.keep' if w == 'keep' else '.other' if w == 'other' or w[1] not in ('off', 'internal', 'all') else '.set .%s' % w[1]
+        return '.keep' if w == 'keep' else '.other' if w == 'other' else '.set %s' % lean_bool(w[1])
+
+    def per_pv(fn):
+        return '\n'.join('    | .%s, .%s => %s' % (p, v, fn(p, v)) for p in PROTOS for v in ('none', 'soft', 'lxml'))
+
+    def post(p, v):
+        w = f['post'][p][v]
+        if all(w[k] == 'keep' for k in KW_KEYS):
+            return '.keepAll'
+        return '{ ' + ', '.join('%s := %s' % (lean_camel(k), lean_write(k, w[k])) for k in KW_KEYS) + ' }'
     sites = ',\n'.join('    { file := "%s", line := %d, call := "%s", role := .%s, parser := .%s, catchesSyntaxError := %s }'
                        % (s['file'], s['line'], s['call'], s['role'], s['parser'], lean_bool(s['catches'])) for s in f['sites'])
     lib = f['lib']
@@ -1132,6 +1257,11 @@ def facts17 : Facts17 where
   ]
   xincludeCalls := %d
   extraKwKeys := %d
+  post := fun p v => match p, v with
+%s
+  liveAtRequest := fun p v => match p, v with
+%s
+  kwWritesOutsideInit := %d
   lxmlDefault := %s
   lib := lib17
 
@@ -1141,7 +1271,8 @@ end SpyneModel.Generated
        lean_bool(lib['netSupported']),
        per_proto(plumb), per_proto(lambda p: lean_args(f['ctor'][p])), per_proto(lambda p: lean_kw(f['live'][p])),
        lean_bool(f['kwIsolated']), lean_bool(f['parserPerRequest']), sites, f['xincludeCalls'],
-       sum(len(v) for v in f['extra'].values()), lean_kw(lib['lxmlDefault']))
+       sum(len(v) for v in f['extra'].values()), per_pv(post), per_pv(lambda p, v: lean_kw(f['liveAt'][p][v])),
+       len(f['kwWrites']), lean_kw(lib['lxmlDefault']))
 
 
 
@@ -1353,11 +1484,12 @@ def configs():
 TEXT_POS = ['s', 'name', 'note', 'lst0', 'lst1']
 CONTENT_POS = ['echo.pre', 'echo.post', 'item.pre', 'lst.pre']
 SOAP_CONTENT_POS = ['env.pre', 'body.post']
+VALIDATED_POS = ['s', 'lst0', 'echo.pre', 'tag', 's@x', 'env@x']
 ATTR_POS = ['tag', 'echo@x', 's@x', 'item@x', 'name@x', 'lst@x', 'lst0@x']
 SOAP_ATTR_POS = ['env@x', 'body@x']
 
 
-def request_doc(proto, d, world, text=None, attr=None, many_attrs=None):
+def request_doc(proto, d, world, text=None, attr=None, many_attrs=None, omit_tag=False):
     """a valid echo request with `text` = (position, tokens) and/or `attr` = (position, pieces) filled in"""
     tp, tt = text if text else (None, None)
     ap, av = attr if attr else (None, None)
@@ -1376,7 +1508,7 @@ def request_doc(proto, d, world, text=None, attr=None, many_attrs=None):
     def slot(pos):
         return tt if tp == pos else []
     body = [O('{%s}echo' % TNS, at('echo'))] + slot('echo.pre') + leaf('s', 's', 'hello')
-    body += [O('{%s}item' % TNS, at('item', [('tag', av if ap == 'tag' else [lit('tg')])]))] + slot('item.pre')
+    body += [O('{%s}item' % TNS, at('item', [] if omit_tag else [('tag', av if ap == 'tag' else [lit('tg')])]))] + slot('item.pre')
     body += leaf('name', 'name', 'nm') + leaf('note', 'note', 'nt') + [C]
     body += [O('{%s}lst' % TNS, at('lst'))] + slot('lst.pre') + leaf('string', 'lst0', 'l0') + leaf('string', 'lst1', 'l1') + [C]
     body += slot('echo.post') + [C]
@@ -1400,6 +1532,9 @@ def payloads(lib):
         P.append(('ext-param-noref:' + sch, dtd(pe=[[sch, 50]]), [T('hello')], [lit('tg')], 'any'))
         P.append(('ext-subset:' + sch, dtd(sub=[sch, 51]), [T('x'), ref(901)], [lit('x'), ref(901)], 'any'))
         P.append(('ext-subset-noref:' + sch, dtd(sub=[sch, 51]), [T('hello')], [lit('tg')], 'any'))
+    for sch in ('file', 'http'):
+        # <t:item> without its `tag` attribute: a default declared in the external subset must not appear
+        P.append(('ext-subset-attlist:' + sch, dtd(sub=[sch, 51]), [T('hello')], None, 'any'))
     P.append(('xinclude-text', None, [O('{%s}include' % NS_XI, [('href', [lit('@URI:file:1@')]), ('parse', [lit('text')])]), C], None, 'any'))
     P.append(('xinclude-xml', None, [O('{%s}include' % NS_XI, [('href', [lit('@URI:file:50@')])]), C], None, 'any'))
     for d, fan in ((2, 2), (3, 3), (3, 10)):
@@ -1435,14 +1570,22 @@ def request_corpus(ctx, lib, world):
                 placements += [('attr', p) for p in aposs]
             if label == 'benign':
                 placements = [('text', 's')]
+            if label.startswith('ext-subset-attlist'):
+                placements = [('text', 's')]
             for kind, pos in placements:
                 doc = request_doc(proto, d, world, text=(pos, toks) if kind == 'text' else None,
-                                  attr=(pos, pieces) if kind == 'attr' else None)
+                                  attr=(pos, pieces) if kind == 'attr' else None,
+                                  omit_tag=label.startswith('ext-subset-attlist'))
                 exp = 'reject' if expect == 'reject' or (expect == 'reject-attr' and kind == 'attr') else 'any'
                 for tr, mp in (('server', False), ('wsgi', False)) + ((('wsgi', True),) if proto != 'xml' else ()):
-                    cases.append(({'payload': label, 'pos': pos, 'kind': kind, 'expect': exp},
-                                  {'op': 'handle', 'proto': proto, 'tr': tr,
-                                   'req': {'doc': doc, 'multipart': mp, 'unicode_decl': False}}))
+                    for val in VALIDATORS:
+                        # every position without a validator; the configuration paths through set_validator /
+                        # set_app (soft, lxml) at a representative subset of the positions
+                        if val is not None and pos not in VALIDATED_POS:
+                            continue
+                        cases.append(({'payload': label, 'pos': pos, 'kind': kind, 'expect': exp, 'validator': VNAME[val]},
+                                      {'op': 'handle', 'proto': proto, 'tr': tr, 'validator': val,
+                                       'req': {'doc': doc, 'multipart': mp, 'unicode_decl': False}}))
         # huge attribute counts, an encoding declaration over a charset-announcing transport
         for elem in ('echo', 's', 'item', 'lst0'):
             doc = request_doc(proto, None, world, many_attrs=(elem, 4000))
@@ -1529,9 +1672,9 @@ def kwargs_cases(ctx):
     cases = []
     base = {a: DEFAULT_KW[a] for a in BOOL_ARGS}
     base['resolve_entities'] = 'off'
-    cases.append(dict(base))
+    cases += [dict(base), dict(base), dict(base)]       # the defaults under each validator
     for a in BOOL_ARGS:
-        cases.append(dict(base, **{a: not base[a]}))
+        cases += [dict(base, **{a: not base[a]})] * 3
     for r in ('internal', 'all'):
         cases.append(dict(base, resolve_entities=r))
     for a in BOOL_ARGS:
@@ -1586,11 +1729,11 @@ def _run_cases(ctx, f, lib, pool):
     classes = proto_classes()
     KQ = []
     for p in PROTOS:
-        for args in kwargs_cases(ctx):
-            real = dict(args)
-            real['resolve_entities'] = {'off': False, 'internal': 'internal', 'all': True}[args['resolve_entities']]
-            impl = kw_json(classes[p](**real).parser_kwargs)
-            q = {'op': 'kwargs', 'proto': p, 'args': args}
+        for n_, args in enumerate(kwargs_cases(ctx)):
+            # the dict the parser is built from when a request arrives, for every validator setting
+            val = VALIDATORS[n_ % 3] if n_ >= 3 else VALIDATORS[n_]
+            impl = kw_json(at_request_kw(classes[p], val, args))
+            q = {'op': 'kwargs', 'proto': p, 'validator': VNAME[val], 'args': args}
             KQ.append((q, impl))
             ctx.case(q)
             ctx.hit('op:kwargs')
@@ -1641,9 +1784,10 @@ def _run_cases(ctx, f, lib, pool):
                               ('ext-subset:file', dict(DEFAULT_KW, load_dtd=True)),
                               ('ext-param:file', dict(DEFAULT_KW, load_dtd=True)),
                               ('internal', dict(DEFAULT_KW, resolve_entities='internal')),
+                              ('ext-subset-attlist:file', dict(DEFAULT_KW, attribute_defaults=True)),
                               ('bomb:nesting', dict(DEFAULT_KW, huge_tree=True))):
                 _, d, toks, pieces, _e = pl[label]
-                doc = request_doc(proto, d, w0, text=('s', toks))
+                doc = request_doc(proto, d, w0, text=('s', toks), omit_tag=label.startswith('ext-subset-attlist'))
                 Q.append({'op': 'handle', 'proto': proto, 'tr': tr, 'kw': kw,
                           'req': {'doc': doc, 'multipart': False, 'unicode_decl': False}})
                 META.append({'payload': label, 'pos': 's', 'kind': 'text', 'control': True})
@@ -1656,7 +1800,21 @@ def _run_cases(ctx, f, lib, pool):
     ctx.log('implementation side done (%.1fs)' % (time.time() - t))
     t = time.time()
     MQ = [q for q, _ in KQ] + [dict(q, env=env0, kw=DEFAULT_KW if q['kw'] == 'defaults' else q['kw']) for q in Q]
-    M = model_limited(ctx, MQ)
+    # the model does not depend on the validator: identical queries are evaluated once
+    for mq in MQ:
+        mq.pop('validator', None) if mq.get('op') == 'handle' else None
+        mq.pop('history', None)
+    uniq, order = {}, []
+    for mq in MQ:
+        k_ = core.canon(mq)
+        if k_ not in uniq:
+            uniq[k_] = len(uniq)
+        order.append(uniq[k_])
+    UM = [None] * len(uniq)
+    for mq, j in zip(MQ, order):
+        UM[j] = mq
+    UA = model_limited(ctx, UM)
+    M = [UA[j] for j in order]
     ctx.log('model side done (%.1fs)' % (time.time() - t))
     for m in M:
         if 'driver_error' in m:
@@ -1712,19 +1870,22 @@ def _run_cases(ctx, f, lib, pool):
                             % (ifiles or 'the network', meta['label']), {'query': q, 'observed': r})
             continue
         # ---------------- handle
-        desc = '%s/%s%s %s@%s' % (q['proto'], q['tr'], '/multipart' if q['req']['multipart'] else '', meta['payload'], meta['pos'])
-        ctx.case({'op': 'handle', 'proto': q['proto'], 'tr': q['tr'], 'mp': q['req']['multipart'], 'ud': q['req']['unicode_decl'],
+        vtag = '/validator=%s' % q['validator'] if q.get('validator') else ''
+        desc = '%s/%s%s%s %s@%s' % (q['proto'], q['tr'], '/multipart' if q['req']['multipart'] else '', vtag, meta['payload'], meta['pos'])
+        ctx.case({'op': 'handle', 'proto': q['proto'], 'tr': q['tr'], 'mp': q['req']['multipart'], 'ud': q['req']['unicode_decl'], 'val': q.get('validator'),
                   'kw': short_kw(q['kw']), 'payload': meta['payload'], 'pos': meta['pos'], 'kind': meta['kind']})
         ctx.hit('op:handle')
         ctx.hit('proto:%s/%s%s' % (q['proto'], q['tr'], '/multipart' if q['req']['multipart'] else ''))
         ctx.hit('payload:' + meta['payload'].split(':')[0])
+        ctx.hit('validator:%s' % (q.get('validator') or 'none'))
         impl = impl_handle_canon(r, world)
         mod = model_handle_canon(m)
         if impl is None:
             ctx.hit('handle:failed-after-parse:' + str(r.get('crash') or r.get('fault')))
         else:
             ctx.hit('handle:' + next(iter(impl)))
-            if impl != mod:
+            if impl != mod and not (meta.get('control') and meta['payload'].startswith('ext-subset-attlist')):
+                # (ATTLIST defaults under attribute_defaults=True are not part of the abstract front end)
                 ctx.disagree('handle', {'case': desc, 'kw': short_kw(q['kw']), 'req': q['req'], 'proto': q['proto'], 'tr': q['tr']},
                              show(impl), show(mod))
         if meta.get('control'):
@@ -1733,7 +1894,8 @@ def _run_cases(ctx, f, lib, pool):
         ctx.cov['traces_validated_against_impl'] += 1
         rep = {'query': q, 'case': desc, 'observed': {k: v for k, v in r.items() if k != 'seen'}}
         site = '%s:%s%s%s' % (q['proto'], q['tr'], ':multipart' if q['req']['multipart'] else '',
-                              ':after-unsafe-sibling' if q.get('history') else '')
+                              ':after-unsafe-sibling' if q.get('history') else '') + \
+            (':validator=%s' % q['validator'] if q.get('validator') else '')
         if r.get('dead') or r.get('worker_error'):
             ctx.finding('t3:resource:%s' % site,
                         'request %s exhausted time or memory: %s' % (desc, r.get('dead') or r.get('worker_error')), rep)
@@ -1767,7 +1929,7 @@ def _run_cases(ctx, f, lib, pool):
         ctx.cov['max_rss_growth_kb'] = max(ctx.cov.get('max_rss_growth_kb', 0), r['rss_kb'])
 
     # ---- the canaries must be able to fire (otherwise the negative results above mean nothing)
-    fired = {'file': 0, 'leak': 0, 'text': 0, 'nest': 0}
+    fired = {'file': 0, 'leak': 0, 'text': 0, 'nest': 0, 'attlist': 0}
     for i in controls:
         r, meta = R[i], META[i]
         world = pool.world(i % pool.n)
@@ -1775,6 +1937,8 @@ def _run_cases(ctx, f, lib, pool):
             fired['file'] += 1
         if meta['payload'] == 'ext-general:file' and any(s_ in json.dumps(r.get('captured')) for s_ in world.secrets()):
             fired['leak'] += 1
+        if meta['payload'] == 'ext-subset-attlist:file' and world.attlist_marker(51) in json.dumps(r.get('captured')):
+            fired['attlist'] += 1
         if meta['payload'] == 'internal' and 'IENT1' in json.dumps(r.get('captured')):
             fired['text'] += 1
         if meta['payload'] == 'bomb:nesting' and not r.get('fault'):
